@@ -553,7 +553,14 @@ func (w *World) opRescale() {
 	ok := secp256k1.VerifRescale(w.points[a], &lam)
 	w.r.Hist("%d rescale p%d by %x -> %v", w.step, a, lam, ok)
 	if ok != w.init[a] {
-		w.r.Violate("HARNESS", "rescale-hook", "VerifRescale", w.step, "hook result %v, model init %v", ok, w.init[a])
+		// The hook runs library code (field decoding, the zero test): when
+		// it refuses a canonical non-zero factor for an initialised point,
+		// or accepts an uninitialised one, that code or the validity flag is
+		// off - the world's oracles say so where it matters; the fault is
+		// simply not injected here.  (It used to be reported as harness
+		// trouble: a 32-bit zero test broken by a seeded change made every
+		// pool check exit 2 instead of reporting the change.)
+		w.r.Probe("rescale_hook_disagrees_with_the_model")
 		return
 	}
 	if ok {
